@@ -148,8 +148,10 @@ func (e *kvElection) checkKeyAndReelect(ctx context.Context) {
 		return
 	}
 
+	// Also when no leader is known yet: a follower whose watch could not be set
+	// up, or never delivered the record, learns who leads from this check alone.
 	currentLeaderID := e.LeaderID()
-	if currentLeaderID != "" && currentLeaderID != newLeaderID {
+	if currentLeaderID != newLeaderID {
 		log := e.getLogger()
 		log.Info("leader_changed_periodic_check",
 			append(e.logWithContext(ctx),
